@@ -136,6 +136,198 @@ theorem plane_multiply_monolithic (ph : R → K) (amp : Attr K) (opd : Attr R) (
   rw [sumList_cons, sumList_nil, add_zero]
   rfl
 
+/-- **scalar (0-d) mask, scalar or array amplitude / OPD**: the single phasor is
+`amplitude * mask * exp(2 pi i opd / wavelength)` on the centred grid of the array attribute and `0` outside it; when
+both attributes are scalars it is a constant on the whole plane. (Array attribute of shape `(1, 1)`: one-element scope
+exclusion.) With `plane_multiply_total` this covers every scalar/array combination of amplitude, OPD and mask. -/
+theorem scalar_mask_phasor (ph : R → K) (amp : Attr K) (opd : Attr R) (on : Bool) (r c : Int) :
+    planePhasors ph ⟨amp, opd, .scalar on⟩ = [scalarPhasor ph amp opd on] ∧
+    (scalarPhasor ph amp opd on).sem r c =
+      if attrShape amp opd = (1, 1) then maskMul on (amp.at 0 0) * ph (opd.at 0 0)
+      else if 0 ≤ r + (attrShape amp opd).1 / 2 ∧ r + (attrShape amp opd).1 / 2 < (attrShape amp opd).1 ∧
+              0 ≤ c + (attrShape amp opd).2 / 2 ∧ c + (attrShape amp opd).2 / 2 < (attrShape amp opd).2
+           then maskMul on (amp.at (r + (attrShape amp opd).1 / 2) (c + (attrShape amp opd).2 / 2))
+                  * ph (opd.at (r + (attrShape amp opd).1 / 2) (c + (attrShape amp opd).2 / 2))
+           else 0 := by
+  refine ⟨rfl, ?_⟩
+  generalize hsh : attrShape amp opd = sh
+  obtain ⟨s0, s1⟩ := sh
+  unfold Fld.sem Fld.size1 scalarPhasor
+  simp only [hsh]
+  by_cases h1 : s0 = 1 ∧ s1 = 1
+  · obtain ⟨rfl, rfl⟩ := h1; simp
+  · have hd : (decide (s0 = 1) && decide (s1 = 1)) = false := by
+      rw [Bool.eq_false_iff]; intro hh; simp only [Bool.and_eq_true, decide_eq_true_eq] at hh; exact h1 hh
+    have hne : ¬ ((s0, s1) = ((1 : Int), (1 : Int))) := by rw [Prod.mk.injEq]; exact h1
+    rw [hd, if_neg hne]
+    simp only [Bool.false_eq_true, if_false]
+    rw [emb_mk, arrayExtent_eq]
+    unfold embAt
+    by_cases hin : 0 ≤ r + s0 / 2 ∧ r + s0 / 2 < s0 ∧ 0 ≤ c + s1 / 2 ∧ c + s1 / 2 < s1
+    · have hb : (Extent.mk (-(s0 / 2) + 0) (-(s0 / 2) + 0 + s0 - 1) (-(s1 / 2) + 0) (-(s1 / 2) + 0 + s1 - 1)).inb r c = true := by
+        rw [Extent.inb_iff]; simp only; omega
+      rw [if_pos hb, if_pos hin]
+      have e1 : r - (-(s0 / 2) + 0) = r + s0 / 2 := by omega
+      have e2 : c - (-(s1 / 2) + 0) = c + s1 / 2 := by omega
+      simp only [e1, e2]
+    · have hb : ¬ (Extent.mk (-(s0 / 2) + 0) (-(s0 / 2) + 0 + s0 - 1) (-(s1 / 2) + 0) (-(s1 / 2) + 0 + s1 - 1)).inb r c = true := by
+        rw [Extent.inb_iff]; simp only; omega
+      rw [if_neg hb, if_neg hin]
+
 end phasor
+
+/-! ## The default plane is the identity -/
+section identity
+variable {K R : Type} [MulZeroOneClass K]
+
+/-- **a plane with default attributes changes nothing**: `Plane()` has amplitude 1, OPD 0 and a 0-d mask, its phasor is
+the one-element field `1 * 1 * exp(0) = 1` (`hph`), and every field comes out with the same extent and the same samples.
+(A one-element field must sit at offset (0, 0), as the fresh wavefront's does — one-element scope note.) -/
+theorem default_plane_identity (ph : R → K) (o : R) (hph : ph o = 1) (f : Fld K)
+    (hpos : 0 < f.arr.s0 ∧ 0 < f.arr.s1) (hsz : f.size1 = true → f.o0 = 0 ∧ f.o1 = 0) :
+    ∃ p, planeMultiply ph ⟨.scalar 1, .scalar o, .scalar true⟩ [f] = [p] ∧ p.extent = f.extent ∧
+      ∀ r c, p.emb r c = f.emb r c := by
+  have hq1 : (scalarPhasor ph (.scalar (1 : K)) (.scalar o) true).size1 = true := rfl
+  have hqv : (scalarPhasor ph (.scalar (1 : K)) (.scalar o) true).arr.get 0 0 = 1 := by
+    simp [scalarPhasor, maskMul, Attr.at, hph]
+  have hpm : planeMultiply ph ⟨.scalar 1, .scalar o, .scalar true⟩ [f]
+      = (match f.mul (scalarPhasor ph (.scalar (1 : K)) (.scalar o) true) with | some p => [p] | none => []) := by
+    simp only [planeMultiply, planePhasors, List.flatMap_cons, List.flatMap_nil, List.append_nil, List.filterMap_cons,
+      List.filterMap_nil]
+    cases f.mul (scalarPhasor ph (.scalar (1 : K)) (.scalar o) true) <;> rfl
+  cases hf : f.size1 with
+  | false =>
+    obtain ⟨p, hp, hext⟩ := mul_const_some f _ hf hq1 hpos
+    refine ⟨p, by rw [hpm, hp], hext, ?_⟩
+    intro r c
+    have key := C06.mul_sem f (scalarPhasor ph (.scalar (1 : K)) (.scalar o) true) (by rw [hf]; rfl) hpos
+      (by simp [scalarPhasor, attrShape]) r c
+    simp only [hp] at key
+    rw [key]
+    simp only [Fld.sem, hf, hq1, Bool.false_eq_true, if_false, if_true, hqv, mul_one]
+  | true =>
+    obtain ⟨h0, h1⟩ := hsz hf
+    have hm := C06.mul_scalar_scalar f (scalarPhasor ph (.scalar (1 : K)) (.scalar o) true) (by rw [hf, hq1]; rfl)
+    have hoff : f.o0 = (scalarPhasor ph (.scalar (1 : K)) (.scalar o) true).o0 ∧ f.o1 = (scalarPhasor ph (.scalar (1 : K)) (.scalar o) true).o1 :=
+      ⟨h0, h1⟩
+    rw [if_pos hoff] at hm
+    have hs : f.arr.s0 = 1 ∧ f.arr.s1 = 1 := by
+      simp only [Fld.size1, Bool.and_eq_true, decide_eq_true_eq] at hf; exact hf
+    refine ⟨_, by rw [hpm, hm], ?_, ?_⟩
+    · simp only [Fld.extent, hs.1, hs.2]
+    · intro r c
+      simp only [Fld.emb, Fld.extent, hs.1, hs.2, hqv, mul_one, embAt]
+      split
+      · rename_i hin
+        rw [Extent.inb_iff, arrayExtent_eq] at hin
+        simp only at hin
+        have e1 : r - (arrayExtent 1 1 f.o0 f.o1).rmin = 0 := by rw [arrayExtent_eq]; simp only; omega
+        have e2 : c - (arrayExtent 1 1 f.o0 f.o1).cmin = 0 := by rw [arrayExtent_eq]; simp only; omega
+        rw [e1, e2]
+      · rfl
+
+end identity
+
+/-! ## Views: `field`, `intensity`, `insert` -/
+section views
+variable {K : Type} [NonAssocSemiring K]
+
+/-- `Wavefront.field` is the coherent sum of the embedded fields: sample `(i, j)` of an array of shape `(S0, S1)` is the
+sum of all fields at the global coordinate `(i - S0/2, j - S1/2)` — any number of fields, overlapping or not, inside,
+partly inside or outside the array -/
+theorem field_eq_sum (S0 S1 : Int) (data : List (Fld K)) (i j : Int) (hi : 0 ≤ i ∧ i < S0) (hj : 0 ≤ j ∧ j < S1) :
+    (wfField 1 S0 S1 data).get i j = sumList data (fun f => f.emb (i - S0 / 2) (j - S1 / 2)) := by
+  unfold wfField
+  suffices h : ∀ (out : Arr K), out.s0 = S0 → out.s1 = S1 →
+      (data.foldl (fun out f => insertArr f out 1) out).get i j
+        = out.get i j + sumList data (fun f => f.emb (i - S0 / 2) (j - S1 / 2)) by
+    rw [h (zerosArr S0 S1) rfl rfl]; simp [zerosArr]
+  induction data with
+  | nil => intro out _ _; simp
+  | cons f fs ih =>
+    intro out h0 h1
+    obtain ⟨e0, e1⟩ := C06.insert_shape f out 1 id
+    rw [List.foldl_cons, ih _ (e0.trans h0) (e1.trans h1), sumList_cons,
+        C06.insert_emb f out 1 id i j (by omega) (by omega), h0, h1, add_assoc]
+    congr 2
+    show _ = embAt f.extent f.arr.get _ _
+    unfold embAt
+    split <;> simp
+
+/-- inserting a list of fields with pairwise non-overlapping extents as intensities adds `|sum of the fields|^2 * w`:
+at most one of them is non-zero at any pixel, so the sum of squared moduli *is* the squared modulus of the sum -/
+theorem insert_disjoint_normSq (nsq : K → K) (h0 : nsq 0 = 0) (gs : List (Fld K))
+    (hdis : gs.Pairwise (fun a b => ∀ r c, ¬ (a.extent.inb r c = true ∧ b.extent.inb r c = true)))
+    (out : Arr K) (w : K) (i j : Int) (hi : 0 ≤ i ∧ i < out.s0) (hj : 0 ≤ j ∧ j < out.s1) :
+    (gs.foldl (fun o g => insertArr g o w nsq) out).get i j
+      = out.get i j + nsq (sumList gs (fun g => g.emb (i - out.s0 / 2) (j - out.s1 / 2))) * w := by
+  induction gs generalizing out with
+  | nil => simp [h0]
+  | cons g gs ih =>
+    obtain ⟨e0, e1⟩ := C06.insert_shape g out w nsq
+    have hrest := (List.pairwise_cons.mp hdis).1
+    rw [List.foldl_cons, ih (List.Pairwise.of_cons hdis) _ (by omega) (by omega), e0, e1, sumList_cons,
+        C06.insert_emb g out w nsq i j hi hj, add_assoc]
+    congr 1
+    have ge : g.emb (i - out.s0 / 2) (j - out.s1 / 2) = embAt g.extent g.arr.get (i - out.s0 / 2) (j - out.s1 / 2) := rfl
+    by_cases hin : g.extent.inb (i - out.s0 / 2) (j - out.s1 / 2) = true
+    · have hz : sumList gs (fun g => g.emb (i - out.s0 / 2) (j - out.s1 / 2)) = 0 := by
+        apply sumList_all_zero
+        intro b hb
+        have hb' : ¬ b.extent.inb (i - out.s0 / 2) (j - out.s1 / 2) = true := fun hh => hrest b hb _ _ ⟨hin, hh⟩
+        show embAt b.extent b.arr.get _ _ = 0
+        unfold embAt; rw [if_neg hb']
+      rw [hz, h0, zero_mul, add_zero, add_zero, ge]
+      unfold embAt; rw [if_pos hin, if_pos hin]
+    · rw [ge]; unfold embAt; rw [if_neg hin, if_neg hin, zero_add, zero_add]
+
+/-- `Wavefront.insert(out, weight)` in terms of what `reduce` returns (`gs`) -/
+theorem wfInsert_of_reduce (nsq : K → K) (data gs : List (Fld K)) (hred : reduce data = gs.map some) (out : Arr K) (w : K) :
+    wfInsert nsq data out w = some (gs.foldl (fun o g => insertArr g o w nsq) out) := by
+  unfold wfInsert; rw [hred]; clear hred
+  induction gs generalizing out with
+  | nil => rfl
+  | cons g gs ih => simp only [List.map_cons, List.foldl_cons]; exact ih _
+
+/-- **`Wavefront.insert(out, weight)` adds `weight * |field|^2` and nothing else**, sample by sample, for any number of
+overlapping fields, any target with prior content, any weight. *Partial*: the two facts about `lentil.field.reduce`
+that C06 proves (`reduce_total`: the reduced fields `gs` have the same total embedding as `data`; `reduce_disjoint`:
+their extents are pairwise non-overlapping) enter as the hypotheses `htot`, `hdis` until those theorems are merged. -/
+theorem wavefront_insert_weight_partial (nsq : K → K) (h0 : nsq 0 = 0) (data gs : List (Fld K))
+    (hred : reduce data = gs.map some)
+    (hdis : gs.Pairwise (fun a b => ∀ r c, ¬ (a.extent.inb r c = true ∧ b.extent.inb r c = true)))
+    (htot : ∀ r c, sumList gs (fun g => g.emb r c) = sumList data (fun f => f.emb r c))
+    (out : Arr K) (w : K) :
+    ∃ out', wfInsert nsq data out w = some out' ∧ out'.s0 = out.s0 ∧ out'.s1 = out.s1 ∧
+      ∀ i j, 0 ≤ i ∧ i < out.s0 → 0 ≤ j ∧ j < out.s1 →
+        out'.get i j = out.get i j + nsq (sumList data (fun f => f.emb (i - out.s0 / 2) (j - out.s1 / 2))) * w := by
+  refine ⟨_, wfInsert_of_reduce nsq data gs hred out w, ?_, ?_, ?_⟩
+  · clear hdis htot hred
+    induction gs generalizing out with
+    | nil => rfl
+    | cons g gs ih => rw [List.foldl_cons, ih, (C06.insert_shape g out w nsq).1]
+  · clear hdis htot hred
+    induction gs generalizing out with
+    | nil => rfl
+    | cons g gs ih => rw [List.foldl_cons, ih, (C06.insert_shape g out w nsq).2]
+  · intro i j hi hj
+    rw [insert_disjoint_normSq nsq h0 gs hdis out w i j hi hj, htot]
+
+/-- **`Wavefront.intensity` equals `|Wavefront.field|^2`, sample by sample**, for any number of fields, overlapping or
+not: contributions are added as complex amplitudes before the squared modulus. *Partial* in the same sense as
+`wavefront_insert_weight_partial` (reduce facts as hypotheses). -/
+theorem intensity_eq_normSq_field_partial (nsq : K → K) (h0 : nsq 0 = 0) (S0 S1 : Int) (data gs : List (Fld K))
+    (hred : reduce data = gs.map some)
+    (hdis : gs.Pairwise (fun a b => ∀ r c, ¬ (a.extent.inb r c = true ∧ b.extent.inb r c = true)))
+    (htot : ∀ r c, sumList gs (fun g => g.emb r c) = sumList data (fun f => f.emb r c)) :
+    ∃ I, wfIntensity 1 nsq S0 S1 data = some I ∧
+      ∀ i j, 0 ≤ i ∧ i < S0 → 0 ≤ j ∧ j < S1 → I.get i j = nsq ((wfField 1 S0 S1 data).get i j) := by
+  obtain ⟨I, hI, _, _, hget⟩ := wavefront_insert_weight_partial nsq h0 data gs hred hdis htot (zerosArr S0 S1) 1
+  refine ⟨I, hI, ?_⟩
+  intro i j hi hj
+  rw [hget i j hi hj, field_eq_sum S0 S1 data i j hi hj]
+  simp [zerosArr]
+
+end views
 
 end Lentil.C07
